@@ -164,7 +164,7 @@ func isEnc(mt frame.MessageType) bool { return mt.IsEncrypted() }
 func TestC02(t *testing.T) {
 	env := kit.GetEnv()
 	rep := kit.NewReport("C02", env)
-	rep.Rule = "grid A (round trip, wrong sessions, clear-text scan): full cross product of 7 message types x payload sizes x switch-block sizes x appendix sizes x builder margins; grid B (tamper): for a sub-grid, every bit of every byte of the serialized frame is flipped (larger frames: every bit of all fields except payload/appendix interior, where one bit per byte is flipped) and judged by a reference layout computed from sizes; each harmless-position flip is applied to a freshly sealed frame so replay protection cannot mask the result; non-trivial = the mutation changed a byte (always) / the round trip crossed a pooled-buffer tier or used a switch block or appendix; distinct = distinct (config, bit position)"
+	rep.Rule = "grid A (round trip, wrong sessions, clear-text scan, appendix replaced / grown by a relay to 7 sizes across the pooled tiers after sealing): full cross product of 7 message types x payload sizes x switch-block sizes x appendix sizes x builder margins; grid B (tamper): for a sub-grid, every bit of every byte of the serialized frame is flipped (larger frames: every bit of all fields except payload/appendix interior, where one bit per byte is flipped) and judged by a reference layout computed from sizes; each harmless-position flip is applied to a freshly sealed frame so replay protection cannot mask the result; non-trivial = the mutation changed a byte (always) / the round trip crossed a pooled-buffer tier or used a switch block or appendix; distinct = distinct (config, bit position)"
 	rep.Assumptions = []string{
 		"ChaCha20-Poly1305 and Ed25519 are correct; the check exercises how the frame code uses them (which bytes are covered), not the primitives",
 		"sizes between the enumerated ones behave like the enumerated ones (all pooled-buffer tier boundaries and the field-size extremes are in the grid)",
@@ -298,6 +298,35 @@ func gridA(rep *kit.Report, w *world, c cfg) {
 		rep.Violate("roundtrip-mismatch/"+className(c.mt), "unsealed content differs from sealed content: "+c.String(), c.String())
 	}
 	rep.Outcome("roundtrip-ok/" + className(c.mt))
+	// a relay may replace / grow the appendix of a sealed frame (also across
+	// pooled-buffer tiers): that must never invalidate it.
+	if c.off == 12 && (c.payload == 45 || c.payload == 584 || c.payload == 1583) && c.swb <= 2 {
+		for _, newApx := range []int{0, 1, 300, 700, 2000, 6000, 10000} {
+			fs, err := w.seal(c, payload, sw, apx)
+			if err != nil {
+				continue
+			}
+			// re-parse at the relay (pooled slice, link offset) and change the appendix there.
+			ps := w.c.FrameBuilder().GetPooledSlice(len(fs.wire) + 28)
+			n := copy(ps[12:], fs.wire)
+			rf, err := w.c.FrameBuilder().ParseFrame(ps[12:12+n], ps[:cap(ps)], 12)
+			if err != nil {
+				rep.Violate("relay-parse-failed", err.Error(), c.String())
+				continue
+			}
+			na := randBytes(newApx)
+			if err := rf.SetAppendixData(na); err != nil {
+				rep.Violate("appendix-change-failed/"+className(c.mt), fmt.Sprintf("SetAppendixData(%d) on a sealed frame failed: %v; %s", newApx, err, c), c.String())
+				continue
+			}
+			d, _ := rf.FrameDataWithMargins(0, 0)
+			g, err := w.unseal(d, w.ba)
+			if err != nil || !bytes.Equal(g.MessageData(), payload) || !bytes.Equal(g.AppendixData(), na) {
+				rep.Violate("appendix-change-invalidates/"+className(c.mt), fmt.Sprintf("replacing the appendix of a sealed frame by %d bytes invalidated it: %v; %s", newApx, err, c), map[string]any{"config": c.String(), "new_appendix": newApx})
+			}
+			rf.ReturnToPool()
+		}
+	}
 	if c.payload == 45 && c.swb == 2 && c.apx == 64 && c.off == 12 {
 		rep.Sample(map[string]any{"grid": "A", "config": c.String(), "wire_len": len(s.wire)})
 	}
